@@ -250,9 +250,11 @@ def check(prop, tier, seed, replay):
                 run_life(prop, t1, os.path.join(work, "re.json"), only=only, allout=a1)
                 _, r1, _, _ = check_chan.validate_file(a1, work, par=1)
                 hits += 1 if r1 else 0
-            if hits == 0:
-                log("UNCONFIRMED (not a verdict): transport-level rejection of scenario %s (line %d: %s) did not reproduce"
-                    % (only, line, why))
+            # a scripted scenario on a tree that departs from the model is rejected every time; an interleaving of
+            # two goroutines' log lines that the search cannot place is rare: the verdict needs all three executions
+            if hits < 2:
+                log("UNCONFIRMED (not a verdict): transport-level rejection of scenario %s (line %d: %s) was not rejected in "
+                    "both re-runs (%d of 2)" % (only, line, why, hits))
                 chan_unconfirmed += 1
                 continue
             if len(reported) < 3:
@@ -316,7 +318,22 @@ def check(prop, tier, seed, replay):
             for pth in reported:
                 log("VIOLATION property=%s replay=%s" % (prop, pth))
             return 1
-        undecided = [(h, w) for h, w in cskip if w.startswith("UNDECIDED")]
+        undecided = []
+        for h, wh in [(h, w) for h, w in cskip if w.startswith("UNDECIDED")]:
+            # like a rejection, an undecided trace counts only if the scenario is undecided (or rejected) again:
+            # a rare placement of the silent steps that the search cannot find in time is not a property of the tree
+            only = "%s:%s" % (h.get("name"), h.get("kind"))
+            again = 0
+            for _ in range(2):
+                t1, a1 = os.path.join(work, "re.ndjson"), os.path.join(work, "re-all.ndjson")
+                run_life(prop, t1, os.path.join(work, "re.json"), only=only, allout=a1)
+                _, r1, s1, _ = check_chan.validate_file(a1, work, par=1)
+                again += 1 if (r1 or [x for x in s1 if x[1].startswith("UNDECIDED")]) else 0
+            if again == 0:
+                log("UNCONFIRMED (not a verdict): transport-level validation of scenario %s was undecided once, accepted in "
+                    "two re-runs" % only)
+            else:
+                undecided.append((h, wh))
         if undecided:
             raise Infra("transport-level validation undecided for %d traces (e.g. %s:%s) and no other oracle decided" %
                         (len(undecided), undecided[0][0].get("name"), undecided[0][0].get("kind")))
